@@ -107,4 +107,55 @@ StatementClauses(inst, cfg, reqs) ==
            \A i \in 1..Len(PerKind(reqs, k)) : ObsMatches(Obs(OfKind(inst, k)[i], k), PerKind(reqs, k)[i], cfg)>>,
      <<"trnuids-distinct", Distinct(TrnUids(inst)) /\ \A i \in 1..Len(TrnUids(inst)) : TrnUids(inst)[i] # NoneV>>,
      <<"no-empty-message-set", \A i \in 1..Len(inst.els) : IsInst(inst.els[i][2]) /\ inst.els[i][1] # "signonmsgsrqv1" => inst.els[i][2].mem # <<>>>> >>
+
+(***************************************************************************)
+(* C19: which accounts ofxget asks for.  e = [request, cli, cfg, all,      *)
+(* infos, dt, flags]; account lists are sequences of texts per type.       *)
+(***************************************************************************)
+BankTypes == <<"checking", "savings", "moneymrkt", "creditline">>
+ACTIVE == <<65, 67, 84, 73, 86, 69>>
+UpperOf(t) == CASE t = "checking" -> <<67, 72, 69, 67, 75, 73, 78, 71>> [] t = "savings" -> <<83, 65, 86, 73, 78, 71, 83>>
+                [] t = "moneymrkt" -> <<77, 79, 78, 69, 89, 77, 82, 75, 84>> [] t = "creditline" -> <<67, 82, 69, 68, 73, 84, 76, 73, 78, 69>>
+ActiveOf(infos, kind, accttype) ==
+  LET S == SelectSeq(infos, LAMBDA x : x.kind = kind /\ x.status = ACTIVE /\ (kind = "bank" => x.accttype = accttype)) IN
+  [i \in 1..Len(S) |-> S[i].acctid]
+ActiveIds(infos, kind) == LET S == SelectSeq(infos, LAMBDA x : x.kind = kind /\ x.status = ACTIVE) IN [i \in 1..Len(S) |-> S[i].instid]
+KindOfType(t) == IF t = "creditcard" THEN "cc" ELSE IF t = "investment" THEN "inv" ELSE "bank"
+\* command line, then (with --all) the ACTIVE accounts of the response, then the configuration file
+EffList(e, t) ==
+  IF e.cli[t] # <<>> THEN e.cli[t]
+  ELSE IF e.all /\ ActiveOf(e.infos, KindOfType(t), IF KindOfType(t) = "bank" THEN UpperOf(t) ELSE <<>>) # <<>>
+       THEN ActiveOf(e.infos, KindOfType(t), IF KindOfType(t) = "bank" THEN UpperOf(t) ELSE <<>>)
+  ELSE e.cfg[t]
+EffId(e, name, kind) ==
+  IF e.cli[name] # <<>> THEN e.cli[name]
+  ELSE IF e.all /\ ActiveIds(e.infos, kind) # <<>> THEN ActiveIds(e.infos, kind)[1]
+  ELSE e.cfg[name]
+DateOf(text) == IF text = <<>> THEN NoneV ELSE Conv(Ty("dt", -1, -1, {}, FALSE), text)
+Selected(e) ==
+  LET ds == DateOf(e.dt.start) de == DateOf(e.dt.end) da == DateOf(e.dt.asof)
+      endrq == e.request = "stmtend"
+      mk(kind, acct, at) == [kind |-> kind, acctid |-> acct, accttype |-> at, dtstart |-> ds, dtend |-> de, dtasof |-> da,
+                             inctran |-> e.flags.inctran, incoo |-> e.flags.incoo, incpos |-> e.flags.incpos, incbal |-> e.flags.incbal]
+      bank == FoldLeft(LAMBDA acc, t : acc \o [i \in 1..Len(EffList(e, t)) |-> mk(IF endrq THEN "stmtend" ELSE "stmt", EffList(e, t)[i], UpperOf(t))],
+                       <<>>, BankTypes)
+      cc == [i \in 1..Len(EffList(e, "creditcard")) |-> mk(IF endrq THEN "ccstmtend" ELSE "ccstmt", EffList(e, "creditcard")[i], <<>>)]
+      inv == IF endrq THEN <<>> ELSE [i \in 1..Len(EffList(e, "investment")) |-> mk("invstmt", EffList(e, "investment")[i], <<>>)]
+  IN bank \o cc \o inv
+CountIn(seq, x) == Cardinality({i \in 1..Len(seq) : seq[i] = x})
+SameBag(a, b) == Len(a) = Len(b) /\ \A i \in 1..Len(a) : CountIn(a, a[i]) = CountIn(b, a[i])
+\* an observation is normalised so that the two admissible encodings of "no transactions" coincide
+ExpBag(rs, cfg) == [i \in 1..Len(rs) |-> Exp(rs[i], cfg)]
+ObsBag(ws, k, rs) == [i \in 1..Len(ws) |->
+   LET o == Obs(ws[i], k) IN
+   IF k = "invstmt" /\ o.inctran = Bool(FALSE) THEN [o EXCEPT !.inctran = NoneV, !.dtstart = NoneV, !.dtend = NoneV] ELSE o]
+SelectionClauses(inst, e) ==
+  LET rs == Selected(e)
+      cfg == [bankid |-> EffId(e, "bankid", "bank"), brokerid |-> EffId(e, "brokerid", "inv")] IN
+  << <<"one-statement-per-selected-account", Len(AllWrappers(inst)) = Len(rs)>>,
+     <<"wrappers-are-statement-requests",
+        \A i \in 1..Len(AllWrappers(inst)) : \E k \in StmtKinds : AllWrappers(inst)[i].cls = WrapperOf(k)>> >> \o
+  [j \in 1..5 |->
+     LET k == <<"stmt", "stmtend", "ccstmt", "ccstmtend", "invstmt">>[j] IN
+     <<"accounts-of-kind-" \o k, SameBag(ObsBag(OfKind(inst, k), k, rs), ExpBag(PerKind(rs, k), cfg))>>]
 =============================================================================
